@@ -233,6 +233,81 @@ theorem no_starvation_composite (n : Int) (ops : List Op2) :
   | nil => rfl
   | cons a b => exact absurd hh (key (by simp [hw])).2
 
+/-- **A limit of zero or less refuses entry - also in the composite step**: while `T <= 0` the
+exit of a holder together with the cancellation of a waiter in the same loop iteration lets nobody
+into the block (whoever gets the permit is refused). -/
+theorem zero_refuses_composite (s : Lim) (h : Inv s) (hT : s.T ≤ 0) (i k : Nat) :
+    ∀ j, Ev.entered j ∉ (stepExitCancel s i k).2 := by
+  have hS0 := h.S_nonneg
+  have key : ∀ w2 : Work, WInv w2 → w2.st.T = s.T → (∀ j, Ev.entered j ∉ w2.evs) →
+      ∀ j, Ev.entered j ∉ (finish w2).2 := by
+    intro w2 hw2 hT2 hno j hj
+    obtain ⟨e, he, _, hz⟩ := (finish_spec w2 hw2).evs_ext
+    rw [he] at hj
+    rcases List.mem_append.1 hj with hj | hj
+    · exact hno j hj
+    · obtain ⟨m, hm⟩ := hz (by rw [hT2]; exact hT) _ hj
+      cases hm
+  intro j
+  unfold stepExitCancel
+  by_cases hi : i ∈ s.holders
+  · simp only [hi, ↓reduceIte]
+    rw [retireBound_fixed s h.fx]
+    by_cases hv : s.V > bound s
+    · simp only [hv, ↓reduceIte]
+      by_cases hj : k ∈ s.waiters
+      · simp only [hj, ↓reduceIte]; simp
+      · simp only [hj, ↓reduceIte]; simp
+    · simp only [hv, ↓reduceIte]
+      have w0inv : WInv ⟨{ s with holders := s.holders.erase i }, [], []⟩ := ⟨hS0, h.wait_S, h.fx⟩
+      obtain ⟨rinv, fr, _⟩ := release_spec _ w0inv
+      generalize release ⟨{ s with holders := s.holders.erase i }, [], []⟩ = w at rinv fr
+      have e1 : w.st.T = s.T := fr.T
+      have ee : w.evs = [] := fr.evs
+      by_cases hjw : k ∈ w.woken
+      · simp only [hjw, ↓reduceIte]
+        have w1inv : WInv { w with woken := w.woken.erase k, evs := w.evs ++ [Ev.cancelled k] } :=
+          ⟨rinv.S_nonneg, rinv.wait_S, rinv.fx⟩
+        obtain ⟨r2, f2, _⟩ := release_spec _ w1inv
+        have a : (release { w with woken := w.woken.erase k, evs := w.evs ++ [Ev.cancelled k] }).evs = w.evs ++ [Ev.cancelled k] := f2.evs
+        have b : (release { w with woken := w.woken.erase k, evs := w.evs ++ [Ev.cancelled k] }).st.T = w.st.T := f2.T
+        refine key _ r2 (by rw [b, e1]) ?_ j
+        intro m hm; rw [a, ee] at hm; simp at hm
+      · simp only [hjw, ↓reduceIte]
+        by_cases hjq : k ∈ w.st.waiters
+        · simp only [hjq, ↓reduceIte]
+          have q0 : WInv { w with st := { w.st with waiters := w.st.waiters.erase k } } :=
+            ⟨rinv.S_nonneg, fun _ => rinv.wait_S (by intro h0; rw [h0] at hjq; simp at hjq), rinv.fx⟩
+          cases hwk : w.woken with
+          | nil =>
+            simp only []
+            refine key _ ?_ ?_ ?_ j
+            · exact ⟨q0.S_nonneg, q0.wait_S, q0.fx⟩
+            · exact e1
+            · intro m hm
+              have : Ev.entered m ∈ w.evs ++ [Ev.cancelled k] := hm
+              rw [ee] at this; simp at this
+          | cons x rest =>
+            simp only []
+            have q1 : WInv { ({ w with st := { w.st with waiters := w.st.waiters.erase k } } : Work) with woken := rest } :=
+              ⟨q0.S_nonneg, q0.wait_S, q0.fx⟩
+            have a := resume_spec x _ q1
+            generalize resume x { ({ w with st := { w.st with waiters := w.st.waiters.erase k } } : Work) with woken := rest } = w1 at a
+            have aT : w1.st.T = w.st.T := a.T
+            have aE : w1.evs = w.evs ++ [Ev.refused x] := (a.nonpos (by show w.st.T ≤ 0; rw [e1]; exact hT)).2.1
+            refine key _ ?_ ?_ ?_ j
+            · exact ⟨a.inv.S_nonneg, a.inv.wait_S, a.inv.fx⟩
+            · show w1.st.T = s.T; rw [aT, e1]
+            · intro m hm
+              have : Ev.entered m ∈ w1.evs ++ [Ev.cancelled k] := hm
+              rw [aE, ee] at this; simp at this
+        · simp only [hjq, ↓reduceIte]
+          intro hm
+          have := key w rinv e1 (by intro m hm2; rw [ee] at hm2; simp at hm2) j
+          simp at hm
+          exact this hm
+  · simp only [hi, ↓reduceIte]; simp
+
 -- non-vacuity of `fifo_admission_composite`: limit 1, holder 0, waiters 1 and 2; 0 leaves and 1 -
 -- who had just been handed the permit - is cancelled in the same iteration: 2 is admitted
 example : let s := (run (init 1) [.enter 0, .enter 1, .enter 2]).1
